@@ -1,7 +1,7 @@
 (* Properties_C06.v — C06: adding a frame appends, replaces or extends exactly as documented.
    store_spec is the documented store on plain lists; put is the code's idiom
    (push_back / resize-then-assign with the SIZE_MAX sentinel). *)
-From EZ Require Import Base Types Api Proofs_Store Float32 Run.
+From EZ Require Import Base Types Api Proofs_Store Proofs_Guards Proofs_Updaters Proofs_AnalogCol Float32 Run.
 Local Open Scope N_scope.
 
 (* the code's store IS the documented one for every index a vector can hold *)
@@ -61,13 +61,16 @@ Theorem C06_point_column : forall f_key f_tosize f_div news s s',
 Proof. exact api_point_col_spec. Qed.
 Print Assumptions C06_point_column.
 
-(* full statement for the channel column (every sub-frame of every frame gains exactly the supplied
-   channels).  NOT yet proved in Coq: validated by the correspondence and the direct oracle only. *)
-Definition add_chs (k : nat) (osub nsub : subframe) : subframe := osub ++ firstn k nsub.
-Definition C06_channel_column_statement : Prop := forall f_key f_tosize f_div news s s',
+(* the channel column: when analog(frames) is accepted, every frame keeps its points and each of its first
+   header-sub-frames-per-frame sub-frames gains exactly the supplied channels, in order; nothing else changes.
+   For supplied and stored frames of uniform shape (uniform_chancol). *)
+Theorem C06_channel_column : forall f_key f_tosize f_div news s s' labels,
+  r_strs (groups s) nm_ANALOG nm_LABELS = Ok labels ->
+  uniform_chancol (N.to_nat (h_byframe (hdr s))) (width0 news) (frames s) news ->
   api_analog_col f_key f_tosize f_div news s = ROk tt s' ->
-  exists n0 sf0, nth_error news 0 = Some n0 /\ nth_error (fr_subs n0) 0 = Some sf0 /\
-  frames s' = zipw (fun o n => mkFrame (fr_pts o) (zipw (add_chs (length sf0)) (fr_subs o) (fr_subs n))) (frames s) news.
+  frames s' = zipw (add_chs_frame (N.to_nat (h_byframe (hdr s))) 0 (N.to_nat (width0 news))) (frames s) news.
+Proof. exact api_analog_col_store. Qed.
+Print Assumptions C06_channel_column.
 
 (* non-vacuity: the executable instance accepts a frame on a prepared object and stores it *)
 Example C06_nonvacuous :
